@@ -67,8 +67,8 @@ def t1_rules(run):
     q = L.coq_str
     txt = ["(* generated from /repo by py/props/C23.py (T1): the handler tables of CheckComparisons and\n"
            "   ComplexNodeRemoval as the source states them, proved equal to the tables of the hand model *)\n"
-           "Require Import UFLV.Core.Den.\nRequire Import UFLV.Props.C23_model.\nRequire Import String.\n"
-           "Open Scope string_scope.\n"
+           "Require Import UFLV.Core.Den.\nRequire Import UFLV.Props.C23_model.\nRequire Import UFLV.Props.C23_eqc.\n"
+           "Require Import String.\nOpen Scope string_scope.\n"
            "Fixpoint lookup {T} (k : string) (l : list (string * T)) : option T :=\n"
            "  match l with [] => None | (k', v) :: t => if String.eqb k k' then Some v else lookup k t end.\n"]
     for nm, r in cc_rules:
@@ -82,6 +82,14 @@ def t1_rules(run):
     txt.append(f"Example src_rm_rule_count : List.length rm_rules = {len(rm_rules) + len(rm_alias)}. Proof. reflexivity. Qed.\n")
     cd = "; ".join(f"({q(a)}, {q(b)})" for a, b in cc_disp)
     rd = "; ".join(f"({q(a)}, {q(b)})" for a, b in rm_disp)
+    # arity: a handler with the one-argument signature (self, o) is a MultiFunction CUTOFF type: its
+    # operands are not visited.  The model visits every operand, so no handler may be a cutoff.
+    cc_cut = [n for n, cut in L.handler_arity(CheckComparisons) if cut]
+    rm_cut = [n for n, cut in L.handler_arity(ComplexNodeRemoval) if cut]
+    txt.append(f"Example src_cc_cutoff_handlers : [{'; '.join(q(n) for n in cc_cut)}] = cc_cutoff_handlers. Proof. reflexivity. Qed.\n")
+    txt.append(f"Example src_rm_cutoff_handlers : [{'; '.join(q(n) for n in rm_cut)}] = rm_cutoff_handlers. Proof. reflexivity. Qed.\n")
+    if cc_cut or rm_cut:
+        problems.append(f"cutoff handlers (operands not visited): CheckComparisons {cc_cut}, ComplexNodeRemoval {rm_cut}")
     txt.append(f"Example src_cc_dispatch : cc_dispatch = [{cd}]. Proof. reflexivity. Qed.\n")
     txt.append(f"Example src_rm_dispatch : rm_dispatch = [{rd}]. Proof. reflexivity. Qed.\n")
     path = os.path.join(vlib.GEN, "C23_rules.v")
@@ -375,6 +383,22 @@ def main(run):
                        "implementation_nodetype": c.ty, "obligation": c.name, "witness": w,
                        "reproduce": "bin/check C23 (seed %d); Gen/C23_cases_*.v Example %s" % (run.seed, c.name)},
                       bool(w))
+    # a tie broke: small-scope exhaustive search with the property itself as oracle
+    if t1_problems or bad:
+        from ufl.algorithms.apply_algebra_lowering import apply_algebra_lowering
+        ss = []
+        try:
+            ss += [dict(w, mode="real") for w in L.small_scope_real(run_real, apply_algebra_lowering)]
+            ss += [dict(w, mode="complex") for w in L.small_scope_complex(run_complex)]
+        except Exception as ex:      # the search must never mask the broken tie
+            run.extra["small_scope_error"] = repr(ex)
+        for w in ss[:4]:
+            reported.add("small-scope")
+            run.violation({"what": "the property fails on the real implementation (small-scope search after a "
+                                   "broken tie): " + w["problem"]["kind"], "mode": w["mode"],
+                           "input": w["input"], "input_repr": w["input_repr"], "output": w["output"],
+                           "detail": w["problem"], "t1_problems": t1_problems,
+                           "reproduce": "bin/check C23; C23_lib.small_scope_%s" % w["mode"]}, True)
     if t1_problems and not reported:
         run.violation({"broken": "T1: the handler tables read from the source differ from the model's",
                        "problems": t1_problems}, False)
